@@ -253,10 +253,91 @@ def enforce_layer(ctx):
                         expected='accepted and used iff the schema entry allows the value', observed=rp.show(c['obs']))
 
 
+LIST_FAMILIES = (('standard', 'tests/examples/example1.txt'), ('direct-use', 'tests/examples/example2.txt'))
+PER_SEGMENT = ('Gradient ', 'Thickness ', 'Number of Segments')     # lines that would overwrite / truncate the lists
+
+
+def list_probes(e, rnd, extra):
+    """[(tag, [first, rest...])]: first element at / just inside / just outside the published bounds, in-range rest;
+    and one case whose SECOND element is outside (the element-wise reading of the bounds)"""
+    lo, hi = float(e['min']), float(e['max'])
+    rest = [lo + (hi - lo) * 0.25, lo + (hi - lo) * 0.5]
+    firsts = [('min', lo), ('max', hi), ('inside-min', math.nextafter(lo, math.inf)), ('inside-max', math.nextafter(hi, -math.inf)),
+              ('below-min', math.nextafter(lo, -math.inf) if lo else -2.0 ** -60), ('above-max', math.nextafter(hi, math.inf)),
+              ('inside', lo + (hi - lo) / 3), ('far-above', hi * 2 + 1), ('far-below', lo - 1 - abs(lo))]
+    firsts += [t for _ in range(extra) for t in (('inside', lo + (hi - lo) * rnd.random()), ('far-above', hi + (hi - lo) * rnd.random() + 1e-9))]
+    return [(t, [x] + rest) for t, x in firsts] + [('second-element-above-max', [lo + (hi - lo) / 3, math.nextafter(hi, math.inf), rest[0]])]
+
+
+def list_layer(ctx):
+    """array entries with published minimum/maximum whose parameter is a listParameter read through ReadParameter"""
+    rows, d = tables(ctx)
+    model = paramtable.dummy_model()
+    objs, idx = dict(paramtable.sources(model)), paramtable.index()
+    sch = d['gen_request']
+    cases, skipped = [], []
+    for j, e in enumerate(sch):
+        rs = [r for r in rows if r['cls'] in d['geo_classes'] and r['name'] == e['name'] and r['kind'] == 'KList']
+        if e['type'] != 'array' or e['min'] is None or e['max'] is None or not rs:
+            continue
+        if ' ' in e['name']:            # 'AddOn CAPEX', ...: collected from numbered keys by their module, never through ReadParameter
+            skipped.append(e['name'])
+            continue
+        probes = list_probes(e, ctx.rng, ctx.n(0, 6))
+        for r in rs:
+            for tag, elems in probes:
+                st, text = rp.observe_list(objs[r['cls']].ParameterDict[r['name']], r['name'], elems, model)
+                cases.append(dict(j=j, i=idx[(r['cls'], r['name'])], elems=elems, st=st, text=text, tag=tag, cls=r['cls'], name=r['name'], layer='reader'))
+        jobs = [(fam, (fw.REPO / rel).read_text(), tag, elems) for fam, rel in LIST_FAMILIES for tag, elems in probes]
+        res = fw_pool(rp.family_read_list, [(b, e['name'], ln, PER_SEGMENT, str(ctx.scratch)) for b, ln in
+                                            [((fw.REPO / rel).read_text(), None) for _, rel in LIST_FAMILIES]
+                                            + [(b, rp.list_line(e['name'], elems)) for _, b, _, elems in jobs]])
+        base = dict(zip([f for f, _ in LIST_FAMILIES], res[:len(LIST_FAMILIES)]))
+        for (fam, _, tag, elems), after in zip(jobs, res[len(LIST_FAMILIES):]):
+            st = None if isinstance(after, str) or isinstance(base[fam], str) else after != base[fam]
+            cases.append(dict(j=j, i=idx[(rs[0]['cls'], e['name'])], elems=elems, st=st, text=f'list in the model after Model.read_parameters: {after} '
+                              f'(without the line: {base[fam]})', tag=tag, cls=f'family {fam}', name=e['name'], layer='family', family=fam))
+    ctx.note(f'array entries with bounds that never go through ReadParameter (not probed): {skipped}')
+
+    def lit(c):
+        st = 'None' if c['st'] is None else f'(Some {qconv.blit(c["st"])})'
+        return f'({c["j"]}%nat, {c["i"]}%nat, {qconv.q(F(c["elems"][0]))}, {qconv.qlist([F(x) for x in c["elems"][1:]])}, {st})'
+    spec = fw.kernel_eval(ctx, 'list-spec', REQ, lambda lo, hi: 'bad (lcase_spec gen_request) [\n ' + ';\n '.join(lit(c) for c in cases[lo:hi]) + ']', len(cases), shard=400) if cases else []
+    rd = [c for c in cases if c['layer'] == 'reader']
+    agree = fw.kernel_eval(ctx, 'list-model', REQ, lambda lo, hi: 'bad (lcase_agrees param_table) [\n ' + ';\n '.join(lit(c) for c in rd[lo:hi]) + ']', len(rd), shard=400) if rd else []
+    ctx.count('enforce-list', evaluations=len(cases), nontrivial_keys=[(c['cls'], c['name'], c['tag'], tuple(c['elems'])) for c in cases],
+              probes={tg: sum(1 for c in cases if c['tag'] == tg) for tg in sorted({c['tag'] for c in cases})},
+              stored={str(k): sum(1 for c in cases if c['st'] is k) for k in (True, False, None)})
+    for c in cases[:1]:
+        ctx.sample('enforce-list', {'cls': c['cls'], 'line': rp.list_line(c['name'], c['elems']), 'tag': c['tag'], 'observed': c['text']})
+    for k in spec:
+        c = cases[k]
+        e = sch[c['j']]
+        ctx.violate('property', f'enforce-list:{c["name"]}:{c["tag"]}',
+                    f'schema entry {c["name"]!r} publishes minimum={e["raw"].get("minimum")!r}, maximum={e["raw"].get("maximum")!r}; {c["cls"]} given '
+                    f'{rp.list_line(c["name"], c["elems"])!r} ({c["tag"]}, {c["layer"]} level): supplied list '
+                    + {True: 'stored / used', False: 'NOT used (value kept)', None: 'neither stored nor kept'}[c['st']] + f'; {c["text"]}',
+                    inp={'check': 'enforce-list', 'program': 'geophires', 'name': c['name'], 'cls': c['cls'], 'tag': c['tag'], 'elems': [rp.fl(x) for x in c['elems']],
+                         'layer': c['layer'], 'family': c.get('family')},
+                    expected='stored and used iff every supplied element is within the published minimum / maximum', observed=c['text'])
+    for k in agree:
+        c = rd[k]
+        if not any(v.key == f'enforce-list:{c["name"]}:{c["tag"]}' for v in ctx.violations):
+            ctx.violate('corr', f'model:enforce-list:{c["name"]}:{c["tag"]}',
+                        f'Coq model read_list and ReadParameter disagree on {c["cls"]} {rp.list_line(c["name"], c["elems"])!r}: {c["text"]}',
+                        inp={'check': 'enforce-list', 'program': 'geophires', 'name': c['name'], 'cls': c['cls'], 'tag': c['tag'], 'elems': [rp.fl(x) for x in c['elems']]})
+
+
+def fw_pool(fn, jobs):
+    from concurrent.futures import ProcessPoolExecutor
+    with ProcessPoolExecutor(max_workers=16) as ex:
+        return list(ex.map(fn, jobs))
+
+
 def correspondence(ctx, proofs_ok=True):
     paramtable.build_gen(ctx, ('Gen/ParamTable.vo', 'Gen/SchemaTables.vo'))
     import time
-    for layer in (names_layer, fields_layer, committed_layer, result_layer, enforce_layer):
+    for layer in (names_layer, fields_layer, committed_layer, result_layer, enforce_layer, list_layer):
         t = time.time()
         layer(ctx)
         ctx.note(f'{layer.__name__}: {time.time() - t:.1f} s')
@@ -267,11 +348,12 @@ def replay(ctx, data):
     for g in GENERATORS:
         g(ctx)
     paramtable.build_gen(ctx, ('Gen/ParamTable.vo', 'Gen/SchemaTables.vo'))
-    layer = {'names': names_layer, 'field': fields_layer, 'committed': committed_layer, 'result-field': result_layer, 'enforce': enforce_layer}[inp['check']]
+    layer = {'names': names_layer, 'field': fields_layer, 'committed': committed_layer, 'result-field': result_layer, 'enforce': enforce_layer,
+             'enforce-list': list_layer}[inp['check']]
     layer(ctx)
     rows, d = tables(ctx)
     name = inp.get('name') or inp.get('field')
-    if inp['check'] in ('names', 'field', 'enforce'):
+    if inp['check'] in ('names', 'field', 'enforce', 'enforce-list'):
         ck, gk = PROGRAMS[inp['program']][:2]
         print('declarations :', decl_text([r for r in rows if r['cls'] in d[ck] and r['name'] == name]) or 'none')
         print('schema entry :', next((e['raw'] for e in d[gk] if e['name'] == name), 'absent from the generated schema'))
